@@ -171,3 +171,20 @@ Example C02_pgs_dense_example :
     pending c = [] /\ running c = [] /\
     map (fun e : Z => cmem c (A_efc_force, e)) [0; 1]%Z = map (fun e : Z => seq_run pgs_dense_task 2 (fun l : loc => (7 + snd l)%Z) (A_efc_force, e)) [0; 1]%Z.
 Proof. eexists. vm_compute. repeat split. Qed.
+
+(* tactile call site: the batching as coded (batch = ceil(ntaxel / nthread), ntask = ceil(ntaxel / batch)) covers
+   every taxel with at most nthread non-empty batches, for every taxel count and thread count -- and the
+   executable check [tactile_cover_ok] evaluated on the implementation's numbers accepts it ... *)
+Theorem C02_tactile_batches_cover :
+  forall n t : Z, (0 < n)%Z -> (0 < t)%Z ->
+    let b := ceil_div n t in let k := ceil_div n b in
+    (0 < b /\ n <= k * b /\ (k - 1) * b < n /\ 1 <= k <= t)%Z /\ tactile_cover_ok n b k n = true.
+Proof. exact ceil_batching_covers. Qed.
+Print Assumptions C02_tactile_batches_cover.
+
+(* ... while truncating batching (batch = ntaxel / nthread, nthread tasks) leaves the last ntaxel mod nthread
+   taxels to no task whenever nthread does not divide ntaxel, and the check rejects it *)
+Theorem C02_tactile_floor_batching_refuted :
+  forall n t : Z, (0 < t)%Z -> (n mod t <> 0)%Z -> (t * (n / t) < n)%Z /\ tactile_cover_ok n (n / t) t (t * (n / t)) = false.
+Proof. exact floor_batching_drops. Qed.
+Print Assumptions C02_tactile_floor_batching_refuted.
